@@ -98,18 +98,47 @@ def spec_net(n, gates, outputs=(), labs=None):
     return refmodel.Net([labs[i] for i in range(n)], [labs[o] for o in outputs], g)
 
 
+# Task-wide object variant (set by the engine from task['variant'] / case['variant']): every circuit a harness
+# builds is handed to the library as another Python object - a copy.deepcopy or a pickle round trip, whose
+# GateType objects are equal to but not identical with the module constants - or, for 'fresh-labels', is
+# built from label strings that are equal to but not identical with the ones used in later calls.
+VARIANT = [None]
+
+
+def variant(c):
+    v = VARIANT[0]
+    if v == 'deepcopy':
+        import copy
+
+        return copy.deepcopy(c)
+    if v == 'pickle':
+        import pickle
+
+        return pickle.loads(pickle.dumps(c))
+    return c
+
+
+def fresh_str(s):
+    """an equal but not identical (not interned) string"""
+    return ''.join(list(s)) if len(s) > 1 else (s + '_')[:-1] if s else s
+
+
 def build(n, gates, outputs=(), labs=None):
     """The real circuit, through the public API."""
     from cirbo.core.circuit import Circuit, gate as G
 
     labs = labs or labels(n, len(gates))
+    if VARIANT[0] == 'fresh-labels':
+        f = fresh_str
+    else:
+        f = lambda x: x  # noqa: E731
     c = Circuit()
-    c.add_inputs([labs[i] for i in range(n)])
+    c.add_inputs([f(labs[i]) for i in range(n)])
     for j, (t, ops) in enumerate(gates):
-        c.emplace_gate(labs[n + j], getattr(G, t), tuple(labs[o] for o in ops))
+        c.emplace_gate(f(labs[n + j]), getattr(G, t), tuple(f(labs[o]) for o in ops))
     if outputs:
-        c.set_outputs([labs[o] for o in outputs])
-    return c
+        c.set_outputs([f(labs[o]) for o in outputs])
+    return variant(c)
 
 
 def build_from_net(net):
@@ -143,7 +172,7 @@ def build_from_net(net):
     c.set_outputs(list(net.outputs))
     for name, (bi, bg, bo) in net.blocks.items():
         c.make_block(name, list(bg), list(bo), list(bi))
-    return c
+    return variant(c)
 
 
 def sinks(n, gates):
@@ -206,6 +235,15 @@ def scramble_storage(c):
     return c
 
 
+def with_variants(tasks, variants=('deepcopy',), limit=None):
+    """copies of (the first `limit`) tasks that run under an object variant"""
+    out = []
+    for v in variants:
+        for t in (tasks if limit is None else tasks[:limit]):
+            out.append({**t, 'variant': v})
+    return out
+
+
 def identity_variants(c):
     """The same circuit as other Python objects: copy.deepcopy and a pickle round trip create GateType
     objects that are equal to, but not identical with, the module constants."""
@@ -214,3 +252,44 @@ def identity_variants(c):
 
     yield 'deepcopy', copy.deepcopy(c)
     yield 'pickle', pickle.loads(pickle.dumps(c))
+
+
+# -- deep chains ---------------------------------------------------------------------
+# Depth is an axis of its own: Python's recursion limit (1000) turns any recursive walk into a size threshold.
+DEEP_PATTERNS = {
+    'not-and': [('NOT', 'p'), ('AND', 'p', 'x1')],
+    'cmp': [('LT', 'p', 'x1'), ('GEQ', 'x1', 'p'), ('GT', 'p', 'x2'), ('LEQ', 'p', 'x1')],
+    'lr': [('LNOT', 'p', 'x1'), ('RIFF', 'x1', 'p'), ('RNOT', 'x2', 'p'), ('LIFF', 'p', 'x2')],
+    'xor-nor': [('XOR', 'p', 'x1'), ('NOR', 'p', 'x2'), ('NXOR', 'x1', 'p'), ('NAND', 'p', 'p')],
+    'iff-not': [('IFF', 'p'), ('NOT', 'p'), ('NOT', 'p')],
+    'or3': [('OR', 'p', 'x1', 'p'), ('XOR', 'x2', 'p', 'x1'), ('NOT', 'p')],
+}
+DEEP_LENGTHS = {'quick': (1200, 3000), 'thorough': (1200, 3000, 7000)}
+
+
+def deep_chain_net(pattern, L, n_in=3, outputs='last-mid-x0'):
+    """reference netlist of a chain of L gates over inputs x0..x{n_in-1}; gate i is labelled c<i>"""
+    from vmc import refmodel
+
+    steps = DEEP_PATTERNS[pattern]
+    ins = [f'x{i}' for i in range(n_in)]
+    gates = {i: ('INPUT', ()) for i in ins}
+    prev = 'x0'
+    for i in range(L):
+        t, *ops = steps[i % len(steps)]
+        ops = tuple(prev if o == 'p' else (o if o in ins else 'x0') for o in ops)
+        gates[f'c{i}'] = (t, ops)
+        prev = f'c{i}'
+    outs = [prev] if outputs == 'last' else [prev, f'c{L // 2}', 'x0']
+    return refmodel.Net(ins, outs, gates)
+
+
+def deep_chain(pattern, L, storage='fwd', n_in=3, outputs='last-mid-x0'):
+    """(circuit, net).  storage 'rev': the gate map lists every gate before its operand (built through the
+    bench reader from a text that lists the gates from the output down, when the pattern is printable in
+    bench; otherwise by renaming)."""
+    net = deep_chain_net(pattern, L, n_in, outputs)
+    c = build_from_net(net)
+    if storage == 'rev':
+        c = scramble_storage(c)
+    return c, net
